@@ -280,6 +280,87 @@ def load_known():
 
 # ----------------------------------------------------------------------------- a check run
 
+# ----------------------------------------------------------------------------- code reach (which anchored code ran)
+
+_REACH = {"on": False, "seen": set()}
+
+
+def _reach_start():
+    """Record, with sys.monitoring (one callback per function, then disabled: no measurable cost), which functions
+    of /repo/menpo are entered while the check runs.  Reported in the evidence as `code_reach`: of the functions
+    defined in the files the property is anchored in (properties.jsonl), which ones this run executed at least once
+    - the part of the code the correspondence and the oracle actually looked at."""
+    if _REACH["on"] or os.environ.get("VERIF_NO_REACH"):
+        return
+    try:
+        mon = sys.monitoring
+        tool = mon.COVERAGE_ID
+        mon.use_tool_id(tool, "verif-reach")
+        prefix = os.path.join(os.path.realpath(REPO), "menpo") + os.sep
+        cut = len(os.path.realpath(REPO)) + 1
+
+        def on_start(code, _offset):
+            fn = code.co_filename
+            if fn.startswith(prefix):
+                _REACH["seen"].add((fn[cut:], code.co_qualname))
+            return mon.DISABLE
+
+        mon.register_callback(tool, mon.events.PY_START, on_start)
+        mon.set_events(tool, mon.events.PY_START)
+        _REACH["on"] = True
+    except Exception:  # noqa: BLE001 - older interpreter or tool id taken: the evidence then says so
+        _REACH["on"] = False
+
+
+def _defined_functions(path):
+    """qualified names of the functions / methods defined in a python file (as code.co_qualname spells them)"""
+    import ast
+    out = []
+
+    def walk(node, prefix, in_func):
+        for ch in ast.iter_child_nodes(node):
+            if isinstance(ch, (ast.FunctionDef, ast.AsyncFunctionDef)):
+                q = prefix + ch.name
+                out.append(q)
+                walk(ch, q + ".<locals>.", True)
+            elif isinstance(ch, ast.ClassDef):
+                walk(ch, prefix + ch.name + ".", in_func)
+            elif isinstance(ch, (ast.If, ast.Try, ast.With, ast.For, ast.While)):
+                walk(ch, prefix, in_func)
+    try:
+        walk(ast.parse(open(path).read()), "", False)
+    except (OSError, SyntaxError):
+        pass
+    return out
+
+
+def code_reach(prop):
+    if not _REACH["on"]:
+        return {"measured": False}
+    files = []
+    try:
+        for l in open(os.path.join(ROOT, "properties.jsonl")):
+            p = json.loads(l)
+            if p["id"] == prop:
+                files = list(p["anchors"]["files"])
+    except (OSError, ValueError, KeyError):
+        pass
+    seen = _REACH["seen"]
+    defined, hit, missed = 0, 0, []
+    per_file = {}
+    for f in files:
+        names = sorted(set(_defined_functions(os.path.join(os.path.realpath(REPO), f))))
+        h = [n for n in names if (f, n) in seen]
+        defined += len(names)
+        hit += len(h)
+        per_file[f] = "%d of %d" % (len(h), len(names))
+        missed += ["%s: %s" % (f, n) for n in names if (f, n) not in seen]
+    return {"measured": True, "how": "sys.monitoring PY_START in the check's own process (sub-processes not counted)",
+            "anchored_files": per_file, "functions_defined": defined, "functions_executed": hit,
+            "not_executed": missed[:600],
+            "menpo_functions_executed_in_total": len(seen)}
+
+
 class Ctx:
     def __init__(self, prop, tier, seed):
         self.prop, self.tier, self.seed = prop, tier, seed
@@ -300,6 +381,7 @@ class Ctx:
         self.searched = 0
         self.known = [k for k in load_known() if k["prop"] == prop]
         self.known_seen = {}
+        _reach_start()
 
     # counts -----------------------------------------------------------------
     def quick(self):
@@ -450,6 +532,7 @@ class Ctx:
             "violations": n_viol,
         }
         ev["coverage"].update(self.notes)
+        ev["coverage"]["code_reach"] = code_reach(self.prop)
         d = os.path.join(ROOT, "evidence")
         os.makedirs(d, exist_ok=True)
         with open(os.path.join(d, self.prop + ".json"), "w") as f:
